@@ -65,6 +65,7 @@ theorem c10_step (r : Rep) (op : RepOp) (h : setsRev op = false) :
   | drop => simp [Rep.step, rwWrites]
   | setMode m => unfold Rep.step rwWrites; simp only [rwWrites]; split <;> simp
   | setCkpt s => unfold Rep.step rwWrites; simp only [rwWrites]; split <;> simp
+  | setRb b => unfold Rep.step rwWrites; simp only [rwWrites]; split <;> simp
   | stash => unfold Rep.step rwWrites; simp only [rwWrites]; split <;> simp
   | rbBegin n st => unfold Rep.step rwWrites; simp only [rwWrites]; split <;> (try split) <;> (try split) <;> simp
   | rbReload => simp [setsRev] at h
